@@ -171,9 +171,13 @@ class _InstanceLookup(DictLike):
 
     def pop(self, key, *default):
         try:
-            return self.local.pop(key)
+            current = self[key]
         except KeyError:
-            return self.class_lookup.pop(key, *default)
+            if not default:
+                raise KeyError(key)
+            return default[0]
+        self.local[key] = Deleted
+        return current
 
     def setdefault(self, key, default):
         try:
